@@ -1,6 +1,7 @@
 import Witverif.Abi.AsyncHostCall
 import Witverif.Abi.RustAsync
 import Witverif.Async.GlueSpec
+import Witverif.Async.ExportGlue
 import Drivers.Util
 import Drivers.AbiParse
 /-! Driver `m_c08` (C08): the async side of the Lean canonical-ABI host for native runs of generated
@@ -18,6 +19,9 @@ numbers, and the spec monitors of C08.  One request per line, fields separated b
   areaok|<p>|<fn>|<size>|<align>|<roff>      spec verdict on the IMPLEMENTATION's numbers → ok | bad
   sig|<variant>|<p>|<fn>                     model of `Resolve::wasm_signature` (async variants too) + the spec's
                                              flat-parameter decision at p (4 flat parameters for async-lowered imports)
+  predict|<k>|<j or ->                       model of the code (Async/ExportGlue.lean: generated wrapper ∥ executor): the host's
+                                             observations of an async export whose body yields k times, cancelled at
+                                             suspension j (- = never) → tokens
   monitor|<export|import>|<tokens>           spec monitor (Async/GlueSpec.lean) on the implementation's trace
         → ok | fail:<class>
 -/
@@ -73,6 +77,32 @@ def liftWith (indirect : Bool) (dump : List (Nat × List Nat))
         "ok " ++ showVal v ++ "|blocks=" ++ triplesStr blocks
     | none => "trap"
 
+open Witverif.Async.ExportGlue in
+/-- labels of one callback of the combined system: the root future is polled once; `ready` = it completes,
+otherwise it yields (wakes its own waker and returns Pending) -/
+def cbLabels (ready : Bool) : List Label :=
+  [.exec (.cancelRead 0), .exec .tau, .rootPoll ready] ++ (if ready then [] else [.exec (.wake 0)]) ++
+  [.exec (.pollDone ready ready), .exec (.decide 0 0 0)] ++ (if ready then [.exec (.cancelRead 0), .exec .tau] else [])
+
+open Witverif.Async.ExportGlue in
+def cancelLabels : List Label := [.hostCb 6 0 0, .exec (.cancelRead 0), .rootDrop, .exec .dropTasksDone, .exec .tau]
+
+open Witverif.Async.ExportGlue in
+/-- the label script of "yield k times, then finish; EVENT_CANCEL at suspension j" -/
+def exportScript (k : Nat) (cancelAt : Option Nat) : List Label :=
+  let rec go (i : Nat) (fuel : Nat) : List Label :=
+    match fuel with
+    | 0 => []
+    | fuel + 1 =>
+      if i < k then
+        cbLabels false ++ (if cancelAt = some i then cancelLabels else Label.hostCb 0 0 0 :: go (i + 1) fuel)
+      else cbLabels true
+  Label.hostCall :: go 0 (k + 1)
+
+def expEvStr : Witverif.Async.GlueSpec.ExpEv → String
+  | .call => "call" | .user => "user" | .ret => "ret" | .cancel => "cancel"
+  | .ev e => "ev:" ++ toString e | .cb c => "cb:" ++ toString c
+
 def handle (line : String) : String :=
   match line.splitOn "|" with
   | ["aliftargs", p, f, bits, dump] =>
@@ -116,6 +146,13 @@ def handle (line : String) : String :=
           coreTysStr s.params ++ " -> " ++ coreTysStr s.results ++ " indirect=" ++ b01 s.indirectParams
             ++ " retptr=" ++ b01 s.retptr ++ " spec-indirect=" ++ b01 specInd
       | _, _, _ => "bad-request"
+  | ["predict", k, j] =>
+      match k.toNat?, (if j == "-" then some none else j.toNat?.map some) with
+      | some k, some cancelAt =>
+          match Witverif.Async.ExportGlue.run (Witverif.Async.ExportGlue.Sys.init false) (exportScript k cancelAt) with
+          | some s => " ".intercalate (s.obs.map expEvStr)
+          | none => "model-stuck"
+      | _, _ => "bad-request"
   | ["monitor", kind, toks] => Witverif.Async.GlueSpec.runStr kind toks
   | _ => "bad-request"
 
